@@ -27,6 +27,6 @@ CaseOf ==
                                      args |-> [zone |-> last.z, t |-> last.t, sod |-> last.sod], out |-> last.out]
     [] last.op = "startOfDay" -> [op |-> "Zoned.startOfDay", cls |-> Cls, args |-> [zone |-> last.z, t |-> last.t], out |-> last.out]
     [] last.op = "dayLength" -> [op |-> "Zoned.hoursInDay", cls |-> Cls \o (IF last.out.val % 3600 = 0 THEN "/whole-hours" ELSE "/fractional-hours"),
-                                 args |-> [zone |-> last.z, t |-> last.t], out |-> IF last.out.val % 3600 = 0 THEN Ok(last.out.val \div 3600) ELSE [kind |-> "any"]]
+                                 args |-> [zone |-> last.z, t |-> last.t], out |-> IF last.out.val % 3600 = 0 THEN Ok(last.out.val \div 3600) ELSE [kind |-> "within", lo |-> last.out.val \div 3600, hi |-> last.out.val \div 3600 + 1]]
 Emit == last.op = "none" \/ PrintT("CASE " \o ToJson(CaseOf))
 =============================================================================
